@@ -1,6 +1,1139 @@
-//! C20 — not built yet.
-pub const BUILT: bool = false;
-pub fn run(_rep: &mut vx::Report) {}
-pub fn worker_main(_args: &[String]) -> i32 {
-    2
+//! C20 — writing the same document twice gives identical bytes.
+//!
+//! Space: programs (one document-building recipe per combination of feature levels: fonts,
+//! images, patterns/shadings/graphics states, annotations, form fields, navigation) × the 8
+//! unencrypted writer configurations (xref table|stream × object streams off|on × stream
+//! compression on|off). Programs × configurations are enumerated exhaustively.
+//! Every cell is serialized 4× in this process (document A twice, then freshly built documents
+//! B and C once each) and once in each of 2 fresh processes (`vcheck --worker C20 …`).
+//! The clock is held fixed through the public API: `set_creation_date`/`set_modification_date`
+//! and `PdfWriter::write_document` (the `Document::to_bytes*`/`save*` wrappers overwrite the
+//! modification date with the wall clock; they are covered by the `unpinned-clock` section,
+//! where only the date fields are masked).
+//! Oracle: byte identity. A difference is localised (first differing offset, enclosing
+//! object) and classified by exact signature for the finding key.
+//! Not enumerated (stated limit): `HashMap` iteration order. It is covered by repetition
+//! across fresh maps (3 builds), threads and 2 fresh processes — an order-dependent emission
+//! over k ≥ 2 entries escapes all 5 independent orders of one cell with probability ≤ k!⁻⁴.
+use oxidize_pdf::annotations::{
+    Icon, LinkAnnotation, MarkupAnnotation, SquareAnnotation, StampAnnotation, StampName, TextAnnotation,
+};
+use oxidize_pdf::forms::{
+    create_checkbox_widget, ButtonWidget, CheckBox, FieldType, PushButton, TextField, Widget, WidgetAppearance,
+};
+use oxidize_pdf::graphics::{
+    AxialShading, BlendMode, ColorStop, ConicShading, FreeFormGouraudShading, GouraudVertex, PaintType,
+    Point as ShPoint, RadialShading, ShadingDefinition, TilingPattern, TilingType,
+};
+use oxidize_pdf::structure::{Destination, NamedDestinations, OutlineItem, OutlineTree, PageDestination};
+use oxidize_pdf::viewer_preferences::ViewerPreferences;
+use oxidize_pdf::writer::{PdfWriter, WriterConfig};
+use oxidize_pdf::{Action, Color, ColorSpace, Document, DocumentMetadata, Font, Image, Page, PageLabelBuilder, Point, Rectangle};
+use refpdf::syntax::{Dict, Obj, Parser};
+use serde_json::json;
+use std::sync::OnceLock;
+use vx::{Ctx, Explore, Report};
+
+pub const BUILT: bool = true;
+
+// ------------------------------------------------------------------ programs
+
+#[derive(Clone, Copy, Debug, PartialEq, Eq, Hash)]
+pub struct Prog {
+    fonts: usize,
+    images: usize,
+    gfx: usize,
+    annots: usize,
+    forms: usize,
+    nav: usize,
+}
+
+const FONTS_LEVELS: [&str; 3] = ["standard fonts", "standard + 1 embedded TrueType", "standard + 2 embedded TrueType"];
+const IMAGES_LEVELS: [&str; 2] = ["no images", "RGB + RGBA(soft mask) + gray on page 1, RGB on page 2"];
+const GFX_LEVELS: [&str; 2] = ["plain paths", "2 tiling patterns, axial+radial+conic+mesh shadings, 3 ExtGStates"];
+const ANNOTS_LEVELS: [&str; 2] = ["no annotations", "link, text note, highlight, square, stamp"];
+const FORMS_LEVELS: [&str; 5] = [
+    "no form",
+    "text field (FormManager, /AP /N) filled with fill_field",
+    "check box + push button (FormManager, widget /AP with /N /R /D)",
+    "check box widget annotation (create_checkbox_widget, /AP /N << /Yes /Off >>)",
+    "text field + check box + legacy check box together",
+];
+const NAV_LEVELS: [&str; 2] = ["no navigation", "outline, named destinations, page labels, open action, viewer preferences"];
+
+fn levels(thorough: bool) -> [usize; 6] {
+    if let Ok(v) = std::env::var("C20_DEBUG_LEVELS") {
+        let x: Vec<usize> = v.split(',').filter_map(|t| t.parse().ok()).collect();
+        if x.len() == 6 {
+            return [x[0], x[1], x[2], x[3], x[4], x[5]];
+        }
+    }
+    // number of levels per feature in this tier; 0 for gfx/annots = tied to the images level
+    // (quick: "page extras" = images + graphics resources + annotations, none/all as one feature)
+    if thorough {
+        [3, 2, 2, 2, 5, 2]
+    } else {
+        [2, 2, 0, 0, 4, 2]
+    }
+}
+
+fn prog_from_index(mut i: usize, lv: &[usize; 6]) -> Prog {
+    let mut v = [0usize; 6];
+    for k in (0..6).rev() {
+        let n = lv[k].max(1);
+        v[k] = i % n;
+        i /= n;
+    }
+    if lv[2] == 0 {
+        v[2] = v[1];
+    }
+    if lv[3] == 0 {
+        v[3] = v[1];
+    }
+    Prog { fonts: v[0], images: v[1], gfx: v[2], annots: v[3], forms: v[4], nav: v[5] }
+}
+fn prog_index(p: &Prog, lv: &[usize; 6]) -> usize {
+    let v = [p.fonts, p.images, if lv[2] == 0 { 0 } else { p.gfx }, if lv[3] == 0 { 0 } else { p.annots }, p.forms, p.nav];
+    let mut i = 0;
+    for k in 0..6 {
+        i = i * lv[k].max(1) + v[k];
+    }
+    i
+}
+
+fn config_of(i: usize) -> WriterConfig {
+    WriterConfig {
+        use_xref_streams: i & 1 != 0,
+        use_object_streams: i & 2 != 0,
+        pdf_version: if i & 3 != 0 { "1.5" } else { "1.7" }.to_string(),
+        compress_streams: i & 4 == 0,
+        incremental_update: false,
+    }
+}
+fn config_name(i: usize) -> String {
+    format!(
+        "xref={} objstm={} compress={}",
+        if i & 1 != 0 { "stream" } else { "table" },
+        if i & 2 != 0 { "on" } else { "off" },
+        if i & 4 == 0 { "on" } else { "off" }
+    )
+}
+
+fn font_bytes() -> &'static Vec<u8> {
+    static F: OnceLock<Vec<u8>> = OnceLock::new();
+    F.get_or_init(|| {
+        let p = vx::repo_root().join("test-pdfs/Roboto-Regular.ttf");
+        std::fs::read(&p).unwrap_or_else(|e| panic!("cannot read {}: {e}", p.display()))
+    })
+}
+
+fn rect(x: f64, y: f64, w: f64, h: f64) -> Rectangle {
+    Rectangle::new(Point::new(x, y), Point::new(x + w, y + h))
+}
+
+fn e<T, E: std::fmt::Display>(r: Result<T, E>, what: &str) -> Result<T, String> {
+    r.map_err(|e| format!("{what}: {e}"))
+}
+
+/// Pin both dates to 2026-01-02 03:04:05 UTC without naming the chrono crate (vcheck does not
+/// depend on it): `DateTime<Utc>::default()` is the Unix epoch and `+ std::time::Duration` is
+/// implemented for it.
+fn pin_dates(doc: &mut Document) {
+    fn epoch_like<T: Default>(_witness: &T) -> T {
+        T::default()
+    }
+    let now = DocumentMetadata::default().creation_date.expect("default creation date");
+    let epoch = epoch_like(&now);
+    let fixed = epoch + std::time::Duration::from_secs(1_767_323_045);
+    doc.set_creation_date(fixed);
+    doc.set_modification_date(fixed);
+}
+
+/// Build the document of a program. Deterministic recipe: the same calls in the same order.
+pub fn build(p: &Prog) -> Result<Document, String> {
+    let mut doc = Document::new();
+    pin_dates(&mut doc);
+    doc.set_title("Determinism probe (Año €)");
+    doc.set_author("vcheck C20");
+    doc.set_subject("same content, same bytes");
+    doc.set_keywords("a, b; (c) \\ d");
+
+    if p.fonts >= 1 {
+        e(doc.add_font_from_bytes("alpha", font_bytes().clone()), "add_font alpha")?;
+    }
+    if p.fonts >= 2 {
+        e(doc.add_font_from_bytes("beta", font_bytes().clone()), "add_font beta")?;
+    }
+
+    // ---------------- page 1
+    let mut page = Page::a4();
+    e(page.text().set_font(Font::Helvetica, 12.0).at(72.0, 780.0).write("Helvetica line (one)"), "text")?;
+    e(page.text().set_font(Font::TimesBold, 14.0).at(72.0, 760.0).write("Times bold \\ back (paren)"), "text")?;
+    e(page.text().set_font(Font::CourierOblique, 10.0).at(72.0, 744.0).write("Courier oblique"), "text")?;
+    if p.fonts >= 1 {
+        e(page.text().set_font(Font::custom("alpha"), 12.0).at(72.0, 724.0).write("Alpha lazy dog 0123"), "custom text")?;
+    }
+    if p.fonts >= 2 {
+        e(page.text().set_font(Font::custom("beta"), 11.0).at(72.0, 708.0).write("Beta quick fox xyz"), "custom text")?;
+    }
+    page.graphics()
+        .set_fill_color(Color::rgb(0.2, 0.4, 0.6))
+        .rect(72.0, 640.0, 100.0, 40.0)
+        .fill()
+        .set_stroke_color(Color::rgb(0.9, 0.1, 0.1))
+        .set_line_width(1.5)
+        .move_to(72.0, 630.0)
+        .line_to(300.0, 630.0)
+        .stroke();
+
+    if p.images >= 1 {
+        let rgb = Image::from_raw_data(vec![255, 0, 0, 0, 255, 0, 0, 0, 255, 255, 255, 0], 2, 2, ColorSpace::DeviceRGB, 8);
+        page.add_image("ImB", rgb);
+        let rgba = e(Image::from_rgba_data(vec![255, 0, 0, 255, 0, 255, 0, 192, 0, 0, 255, 128, 255, 255, 0, 64], 2, 2), "rgba")?;
+        page.add_image("ImA", rgba);
+        let gray = e(Image::from_gray_data(vec![0, 64, 128, 255, 10, 20], 3, 2), "gray")?;
+        page.add_image("ImC", gray);
+        e(page.draw_image("ImB", 320.0, 700.0, 40.0, 40.0), "draw")?;
+        e(page.draw_image("ImA", 370.0, 700.0, 40.0, 40.0), "draw")?;
+        e(page.draw_image("ImC", 420.0, 700.0, 60.0, 40.0), "draw")?;
+    }
+
+    if p.gfx >= 1 {
+        for (name, colour) in [("PatB", "1 0 0 rg"), ("PatA", "0 0 1 rg"), ("PatC", "0 1 0 rg")] {
+            let mut pat = TilingPattern::new(name.to_string(), PaintType::Colored, TilingType::ConstantSpacing, [0.0, 0.0, 10.0, 10.0], 10.0, 10.0);
+            pat.add_command(colour);
+            pat.add_command("0 0 5 5 re");
+            pat.add_command("f");
+            e(page.add_pattern(name, pat), "pattern")?;
+        }
+        page.graphics().add_command("/Pattern cs");
+        page.graphics().add_command("/PatB scn");
+        page.graphics().rect(72.0, 560.0, 60.0, 40.0).fill();
+        let stops = || vec![ColorStop::new(0.0, Color::rgb(1.0, 0.0, 0.0)), ColorStop::new(1.0, Color::rgb(0.0, 0.0, 1.0))];
+        let ax = AxialShading::new("ShB".to_string(), ShPoint::new(0.0, 0.0), ShPoint::new(100.0, 0.0), stops());
+        e(page.add_shading("ShB", ShadingDefinition::Axial(ax)), "axial")?;
+        let rad = RadialShading::new("ShA".to_string(), ShPoint::new(50.0, 50.0), 0.0, ShPoint::new(50.0, 50.0), 40.0, stops());
+        e(page.add_shading("ShA", ShadingDefinition::Radial(rad)), "radial")?;
+        let conic = ConicShading::new("ShD", ShPoint::new(50.0, 50.0), [0.0, 100.0, 0.0, 100.0], stops());
+        e(page.add_conic_shading("ShD", conic), "conic")?;
+        let mesh = FreeFormGouraudShading::new(
+            "ShC",
+            "DeviceRGB",
+            vec![0.0, 100.0, 0.0, 100.0, 0.0, 1.0, 0.0, 1.0, 0.0, 1.0],
+            vec![
+                GouraudVertex { flag: 0, x: 0.0, y: 0.0, color: Color::rgb(1.0, 0.0, 0.0) },
+                GouraudVertex { flag: 0, x: 100.0, y: 0.0, color: Color::rgb(0.0, 1.0, 0.0) },
+                GouraudVertex { flag: 0, x: 50.0, y: 100.0, color: Color::rgb(0.0, 0.0, 1.0) },
+            ],
+        );
+        e(page.add_mesh_shading("ShC", mesh), "mesh")?;
+        page.graphics().save_state().rect(150.0, 560.0, 100.0, 40.0).clip().end_path().paint_shading("ShB").restore_state();
+        e(page.graphics().set_alpha(0.5), "alpha")?;
+        page.graphics().set_fill_color(Color::rgb(1.0, 0.5, 0.0)).rect(260.0, 560.0, 40.0, 40.0).fill();
+        e(page.graphics().set_blend_mode(BlendMode::Multiply), "blend")?;
+        e(page.graphics().set_alpha(0.25), "alpha")?;
+        page.graphics().rect(280.0, 570.0, 40.0, 40.0).fill();
+    }
+
+    if p.annots >= 1 {
+        let r = rect(72.0, 500.0, 128.0, 20.0);
+        page.add_annotation(LinkAnnotation::to_uri(r, "https://example.org/a(b)").to_annotation());
+        page.add_annotation(TextAnnotation::new(Point::new(300.0, 500.0)).with_contents("note (one)").with_icon(Icon::Comment).to_annotation());
+        page.add_annotation(MarkupAnnotation::highlight(r).with_author("me").with_contents("hl").to_annotation());
+        page.add_annotation(SquareAnnotation::new(rect(72.0, 460.0, 50.0, 30.0)).with_interior_color(Color::rgb(0.9, 0.9, 1.0)).to_annotation());
+        page.add_annotation(StampAnnotation::new(rect(150.0, 460.0, 80.0, 30.0), StampName::Draft).to_annotation());
+    }
+
+    // forms: widgets go on the page before it is added; fill_field after
+    let want_text = p.forms == 1 || p.forms == 4;
+    let want_btn = p.forms == 2 || p.forms == 4;
+    let want_legacy = p.forms == 3 || p.forms == 4;
+    if want_text {
+        let w = Widget::new(rect(100.0, 400.0, 200.0, 20.0)).with_appearance(WidgetAppearance::default());
+        let fref = e(doc.enable_forms().add_text_field(TextField::new("email"), w.clone(), None), "add_text_field")?;
+        e(page.add_form_widget_with_ref(w, fref), "widget")?;
+        let w2 = Widget::new(rect(100.0, 370.0, 200.0, 20.0)).with_appearance(WidgetAppearance::default());
+        let fref2 = e(doc.enable_forms().add_text_field(TextField::new("name").with_value("N. N."), w2.clone(), None), "add_text_field")?;
+        e(page.add_form_widget_with_ref(w2, fref2), "widget")?;
+    }
+    if want_btn {
+        let mut cbw = Widget::new(rect(100.0, 340.0, 15.0, 15.0));
+        e(cbw.generate_appearance(FieldType::Button, Some("Yes")), "generate_appearance")?;
+        let cref = e(doc.enable_forms().add_checkbox(CheckBox::new("agree").checked(), cbw.clone(), None), "add_checkbox")?;
+        e(page.add_form_widget_with_ref(cbw, cref), "widget")?;
+        let mut pbw = Widget::new(rect(130.0, 340.0, 60.0, 15.0));
+        e(pbw.generate_appearance(FieldType::Button, None), "generate_appearance")?;
+        let pref = e(doc.enable_forms().add_push_button(PushButton::new("send").with_caption("Send"), pbw.clone(), None), "add_push_button")?;
+        e(page.add_form_widget_with_ref(pbw, pref), "widget")?;
+    }
+    if want_legacy {
+        doc.enable_forms();
+        let a = e(create_checkbox_widget(&CheckBox::new("legacy").checked(), &ButtonWidget::new(rect(100.0, 310.0, 15.0, 15.0))), "create_checkbox_widget")?;
+        page.add_annotation(a);
+        let b = e(create_checkbox_widget(&CheckBox::new("legacy2"), &ButtonWidget::new(rect(130.0, 310.0, 15.0, 15.0))), "create_checkbox_widget")?;
+        page.add_annotation(b);
+    }
+    doc.add_page(page);
+    if want_text {
+        e(doc.fill_field("email", "user@example.com"), "fill_field")?;
+    }
+
+    // ---------------- page 2
+    let mut page2 = Page::letter();
+    e(page2.text().set_font(Font::HelveticaBold, 16.0).at(72.0, 700.0).write("Second page"), "text")?;
+    if p.fonts >= 1 {
+        e(page2.text().set_font(Font::custom("alpha"), 9.0).at(72.0, 680.0).write("more glyphs: QWERTZ"), "custom text")?;
+    }
+    if p.images >= 1 {
+        let rgb = Image::from_raw_data(vec![9, 8, 7, 6, 5, 4], 2, 1, ColorSpace::DeviceRGB, 8);
+        page2.add_image("ImZ", rgb);
+        e(page2.draw_image("ImZ", 72.0, 600.0, 50.0, 25.0), "draw")?;
+    }
+    if p.gfx >= 1 {
+        e(page2.graphics().set_alpha(0.75), "alpha")?;
+        page2.graphics().rect(72.0, 500.0, 30.0, 30.0).fill();
+    }
+    if p.annots >= 1 {
+        page2.add_annotation(TextAnnotation::new(Point::new(100.0, 400.0)).with_contents("p2").to_annotation());
+    }
+    doc.add_page(page2);
+
+    if p.nav >= 1 {
+        let d = |n: u32| Destination::fit(PageDestination::PageNumber(n));
+        let mut tree = OutlineTree::new();
+        let mut ch = OutlineItem::new("Chapter 1").with_destination(d(0));
+        ch.add_child(OutlineItem::new("Section 1.1").with_destination(Destination::xyz(PageDestination::PageNumber(0), Some(72.0), Some(700.0), None)));
+        ch.add_child(OutlineItem::new("Section 1.2 (closed)").with_destination(d(1)).closed());
+        tree.add_item(ch);
+        tree.add_item(OutlineItem::new("Chapter 2").with_destination(d(1)).bold());
+        tree.add_item(OutlineItem::new("Appendix").italic());
+        doc.set_outline(tree);
+        let mut nd = NamedDestinations::new();
+        nd.add_destination("zeta".to_string(), d(1).to_array());
+        nd.add_destination("alpha".to_string(), d(0).to_array());
+        nd.add_destination("mid(dle)".to_string(), Destination::fit_h(PageDestination::PageNumber(0), Some(400.0)).to_array());
+        doc.set_named_destinations(nd);
+        doc.set_page_labels(PageLabelBuilder::new().roman_pages(1, false).decimal_pages(1).build());
+        doc.set_open_action(Action::goto(d(0)));
+        doc.set_viewer_preferences(ViewerPreferences::new().display_doc_title(true).fit_window(true));
+    }
+    Ok(doc)
+}
+
+pub fn serialize(doc: &mut Document, cfg: usize) -> Result<Vec<u8>, String> {
+    // capacity hint only: with object streams the writer numbers the stream 1000000 and emits a
+    // cross-reference section with a million entries (20 MB as a table, 6 MB as a raw stream)
+    let cap = match (cfg & 3, cfg & 4) {
+        (2, _) => 20_200_000,
+        (3, 4) => 6_200_000,
+        _ => 1 << 16,
+    };
+    let mut buf = Vec::with_capacity(cap);
+    {
+        let mut w = PdfWriter::with_config(&mut buf, config_of(cfg));
+        e(w.write_document(doc), "write_document")?;
+    }
+    Ok(buf)
+}
+
+/// Cost accounting (thread CPU time for in-process work, wall time for worker processes),
+/// reported in the evidence so that the tier budgets can be judged on a loaded machine.
+mod cost {
+    use std::sync::atomic::{AtomicU64, Ordering};
+    pub static BUILD: AtomicU64 = AtomicU64::new(0);
+    pub static SER: [AtomicU64; 8] = [const { AtomicU64::new(0) }; 8];
+    pub static CMP: AtomicU64 = AtomicU64::new(0);
+    pub static WORKER_WALL: [AtomicU64; 8] = [const { AtomicU64::new(0) }; 8];
+    pub fn cpu_ns() -> u64 {
+        let mut ts = libc::timespec { tv_sec: 0, tv_nsec: 0 };
+        unsafe { libc::clock_gettime(libc::CLOCK_THREAD_CPUTIME_ID, &mut ts) };
+        ts.tv_sec as u64 * 1_000_000_000 + ts.tv_nsec as u64
+    }
+    pub fn add(a: &AtomicU64, since: u64) {
+        a.fetch_add(cpu_ns().saturating_sub(since), Ordering::Relaxed);
+    }
+    pub fn ms(a: &AtomicU64) -> u64 {
+        a.load(Ordering::Relaxed) / 1_000_000
+    }
+}
+
+fn timed_build(p: &Prog) -> Result<Document, String> {
+    let t = cost::cpu_ns();
+    let r = build(p);
+    cost::add(&cost::BUILD, t);
+    r
+}
+fn timed_serialize(doc: &mut Document, cfg: usize) -> Result<Vec<u8>, String> {
+    let t = cost::cpu_ns();
+    let r = serialize(doc, cfg);
+    cost::add(&cost::SER[cfg], t);
+    r
+}
+
+fn guarded<T>(f: impl FnOnce() -> Result<T, String>) -> Result<T, String> {
+    match vx::guard(f) {
+        Ok(r) => r,
+        Err(p) => Err(format!("panic: {p}")),
+    }
+}
+
+// ------------------------------------------------------------------ localisation
+
+#[derive(Debug, Clone)]
+pub struct Locus {
+    offset: usize,
+    len_a: usize,
+    len_b: usize,
+    /// "object 12 0" / "xref table" / "trailer" / "header"
+    region: String,
+    /// /Type and /Subtype of the enclosing object when it parses
+    class: String,
+    obj_start: Option<usize>,
+}
+
+fn first_diff(a: &[u8], b: &[u8]) -> Option<usize> {
+    if a == b {
+        return None; // memcmp fast path: the usual case, and the files can be 20 MB
+    }
+    let n = a.len().min(b.len());
+    match (0..n).find(|&i| a[i] != b[i]) {
+        Some(i) => Some(i),
+        None if a.len() != b.len() => Some(n),
+        None => None,
+    }
+}
+
+/// Offset of the last "N G obj" header that starts a line at or before `pos`.
+fn enclosing_obj_header(b: &[u8], pos: usize) -> Option<(usize, u32, u16)> {
+    let mut i = pos.min(b.len());
+    loop {
+        // find previous line start
+        let ls = b[..i].iter().rposition(|&c| c == b'\n').map(|p| p + 1).unwrap_or(0);
+        let le = b[ls..].iter().position(|&c| c == b'\n').map(|p| ls + p).unwrap_or(b.len());
+        let line = &b[ls..le];
+        if line.ends_with(b" obj") {
+            let txt = String::from_utf8_lossy(&line[..line.len() - 4]).to_string();
+            let mut it = txt.split(' ');
+            if let (Some(n), Some(g), None) = (it.next(), it.next(), it.next()) {
+                if let (Ok(n), Ok(g)) = (n.parse::<u32>(), g.parse::<u16>()) {
+                    return Some((ls, n, g));
+                }
+            }
+        }
+        if line == b"xref" || line == b"trailer" {
+            return None;
+        }
+        if ls == 0 {
+            return None;
+        }
+        i = ls - 1;
+    }
+}
+
+fn parse_obj_at(b: &[u8], start: usize) -> Option<(Obj, usize)> {
+    let mut p = Parser::new(b, start);
+    match p.indirect_object(&|l| l.as_int()) {
+        Ok((_, _, o)) => Some((o, p.pos)),
+        Err(_) => None,
+    }
+}
+
+fn class_of(o: &Obj) -> String {
+    let d: Option<&Dict> = match o {
+        Obj::Dict(d) => Some(d),
+        Obj::Stream(s) => Some(&s.dict),
+        _ => None,
+    };
+    match d {
+        None => o.type_name().to_string(),
+        Some(d) => {
+            let nm = |k: &str| d.get(k).and_then(|x| x.as_name()).map(|n| String::from_utf8_lossy(n).to_string());
+            let mut s = match (nm("Type"), nm("Subtype")) {
+                (Some(t), Some(st)) => format!("{t}/{st}"),
+                (Some(t), None) => t,
+                (None, Some(st)) => format!("-/{st}"),
+                (None, None) => {
+                    if d.get("Title").is_some() && d.get("Parent").is_some() {
+                        "outline-item".to_string()
+                    } else if d.get("FT").is_some() {
+                        "field".to_string()
+                    } else if d.get("Producer").is_some() {
+                        "Info".to_string()
+                    } else {
+                        "untyped".to_string()
+                    }
+                }
+            };
+            if matches!(o, Obj::Stream(_)) {
+                s.push_str(" stream");
+            }
+            s
+        }
+    }
+}
+
+pub fn locate(a: &[u8], b: &[u8]) -> Option<Locus> {
+    let off = first_diff(a, b)?;
+    let (region, class, obj_start) = match enclosing_obj_header(a, off) {
+        Some((start, n, g)) => {
+            let class = parse_obj_at(a, start).map(|(o, _)| class_of(&o)).unwrap_or_else(|| "unparsable".into());
+            (format!("object {n} {g}"), class, Some(start))
+        }
+        None => {
+            let before = &a[..off.min(a.len())];
+            let r = if refpdf::file::find_first(before, b"trailer", 0).is_some() {
+                "trailer"
+            } else if before.windows(5).any(|w| w == b"xref\n") {
+                "xref table"
+            } else {
+                "header"
+            };
+            (r.to_string(), r.to_string(), None)
+        }
+    };
+    Some(Locus { offset: off, len_a: a.len(), len_b: b.len(), region, class, obj_start })
+}
+
+/// Entries of the dictionary of the object starting at `start`, with the end offset of the
+/// dictionary text (the `>>`), parsed leniently enough for both serializers.
+fn dict_of_obj(b: &[u8], start: usize) -> Option<(Dict, usize)> {
+    let mut p = Parser::new(b, start);
+    p.obj_header().ok()?;
+    p.skip_ws();
+    match p.parse_object().ok()? {
+        Obj::Dict(d) => Some((d, p.pos)),
+        _ => None,
+    }
+}
+
+/// Classify a difference by exact signature. Anything unrecognised gets a generic key built
+/// from the class of the enclosing object, so that it surfaces as a new violation.
+pub fn classify(a: &[u8], b: &[u8], l: &Locus) -> String {
+    // --- signature 1: the cross-reference stream dictionary has the same entries in a
+    // different order, and nothing else differs
+    if l.class.starts_with("XRef") {
+        if let Some(start) = l.obj_start {
+            if a.len() == b.len() && a[..start] == b[..start] {
+                if let (Some((da, ea)), Some((db, eb))) = (dict_of_obj(a, start), dict_of_obj(b, start)) {
+                    let order_a: Vec<&Vec<u8>> = da.keys().collect();
+                    let order_b: Vec<&Vec<u8>> = db.keys().collect();
+                    if ea == eb && da.same(&db) && order_a != order_b && a[ea..] == b[eb..] {
+                        return "C20/xref-stream-dictionary-entries-in-hash-order".into();
+                    }
+                }
+            }
+        }
+        return "C20/xref-stream-differs".into();
+    }
+    // --- signature 2: appearance streams of a widget annotation get their object numbers in the
+    // iteration order of the HashMap-backed /AP dictionary. Recognised when both files hold the
+    // same object graph up to object numbering (canonical renderings equal) and the only
+    // numbering difference visible from the widgets is a permutation of the references inside
+    // /AP — at the state level (/N /R /D) or inside a state's sub-dictionary (/N << /Yes /Off >>).
+    if let (Some(la), Some(lb)) = (loose_load(a), loose_load(b)) {
+        if let (Some((ca, ma)), Some((cb, mb))) = (canonical_graph(&la), canonical_graph(&lb)) {
+            if ca == cb {
+                // object numbers that differ between the two files for the same node of the graph
+                let back: std::collections::BTreeMap<usize, u32> = mb.iter().map(|(n, c)| (*c, *n)).collect();
+                let moved: Vec<u32> = ma.iter().filter(|(n, c)| back.get(c) != Some(n)).map(|(n, _)| *n).collect();
+                match ap_permutation(&la, &lb, &moved) {
+                    Some(ApPerm::States) => return "C20/widget-ap-state-streams-numbered-in-hash-order".into(),
+                    Some(ApPerm::SubStates) => return "C20/widget-ap-substate-streams-numbered-in-hash-order".into(),
+                    None => return format!("C20/same-graph-different-numbering-first-diff-in-{}", l.class.replace(' ', "-")),
+                }
+            }
+        }
+    }
+    format!("C20/bytes-differ-in-{}", l.class.replace(' ', "-"))
+}
+
+/// Objects of a file read sequentially from the top (the writer emits them back to back), with
+/// object streams expanded; independent of the cross-reference section, which some writer
+/// configurations get wrong (not this property's business).
+struct Loose {
+    objs: std::collections::BTreeMap<u32, Obj>,
+    root: Option<Obj>,
+    info: Option<Obj>,
+}
+
+fn loose_load(b: &[u8]) -> Option<Loose> {
+    let mut l = Loose { objs: Default::default(), root: None, info: None };
+    let mut p = Parser::new(b, 0);
+    // header line and binary comment are comments to skip_ws
+    loop {
+        p.skip_ws();
+        if p.at_end() {
+            break;
+        }
+        if p.starts_with(b"xref") {
+            // classic table: jump to the trailer dictionary
+            let t = refpdf::file::find_first(b, b"trailer", p.pos)?;
+            let mut tp = Parser::new(b, t + 7);
+            tp.skip_ws();
+            if let Ok(Obj::Dict(d)) = tp.parse_object() {
+                l.root = d.get("Root").cloned();
+                l.info = d.get("Info").cloned();
+            }
+            break;
+        }
+        if p.starts_with(b"startxref") {
+            break;
+        }
+        let (num, _gen, o) = p.indirect_object(&|x| x.as_int()).ok()?;
+        if let Obj::Stream(s) = &o {
+            let ty = s.dict.get("Type").and_then(|t| t.as_name());
+            if ty == Some(b"XRef") {
+                l.root = s.dict.get("Root").cloned();
+                l.info = s.dict.get("Info").cloned();
+                // the xref stream itself is not part of the document graph
+                continue;
+            }
+            if ty == Some(b"ObjStm") {
+                let data = refpdf::filters::decode_stream(&s.dict, &s.data).ok()?;
+                let n = s.dict.get("N").and_then(|x| x.as_int())? as usize;
+                let first = s.dict.get("First").and_then(|x| x.as_int())? as usize;
+                let mut hp = Parser::new(&data[..first.min(data.len())], 0);
+                let mut pairs = Vec::new();
+                for _ in 0..n {
+                    let (Ok(Obj::Int(a)), Ok(Obj::Int(o))) = (hp.parse_object(), hp.parse_object()) else { return None };
+                    pairs.push((a as u32, o as usize));
+                }
+                for (i, (num, off)) in pairs.iter().enumerate() {
+                    let end = pairs.get(i + 1).map(|x| first + x.1).unwrap_or(data.len()).min(data.len());
+                    let mut mp = Parser::new(&data[..end], (first + off).min(end));
+                    l.objs.insert(*num, mp.parse_object().ok()?);
+                }
+                continue;
+            }
+        }
+        l.objs.insert(num, o);
+    }
+    l.root.as_ref()?;
+    Some(l)
+}
+
+/// Canonical rendering of everything reachable from /Root and /Info: objects are renumbered
+/// in order of first visit (dictionary keys visited in sorted order), so two files get the
+/// same rendering iff their object graphs are equal up to object numbering.
+fn canonical_graph(f: &Loose) -> Option<(Vec<u8>, std::collections::BTreeMap<u32, usize>)> {
+    use std::collections::BTreeMap;
+    fn walk(o: &Obj, map: &mut BTreeMap<u32, usize>, queue: &mut Vec<u32>, out: &mut Vec<u8>) {
+        match o {
+            Obj::Ref(n, _) => {
+                let id = match map.get(n) {
+                    Some(&i) => i,
+                    None => {
+                        let i = map.len();
+                        map.insert(*n, i);
+                        queue.push(*n);
+                        i
+                    }
+                };
+                out.extend_from_slice(format!("R{id} ").as_bytes());
+            }
+            Obj::Array(a) => {
+                out.push(b'[');
+                for x in a {
+                    walk(x, map, queue, out);
+                }
+                out.push(b']');
+            }
+            Obj::Dict(d) => walk_dict(d, map, queue, out),
+            Obj::Stream(s) => {
+                walk_dict(&s.dict, map, queue, out);
+                out.extend_from_slice(b"stream");
+                out.extend_from_slice(&s.data);
+                out.extend_from_slice(b"endstream");
+            }
+            other => {
+                refpdf::syntax::write_obj(other, out);
+                out.push(b' ');
+            }
+        }
+    }
+    fn walk_dict(d: &Dict, map: &mut BTreeMap<u32, usize>, queue: &mut Vec<u32>, out: &mut Vec<u8>) {
+        let mut ks: Vec<&(Vec<u8>, Obj)> = d.iter().collect();
+        ks.sort_by(|x, y| x.0.cmp(&y.0));
+        out.extend_from_slice(b"<<");
+        for (k, v) in ks {
+            out.push(b'/');
+            out.extend_from_slice(k);
+            out.push(b' ');
+            walk(v, map, queue, out);
+        }
+        out.extend_from_slice(b">>");
+    }
+    let mut map = BTreeMap::new();
+    let mut queue: Vec<u32> = Vec::new();
+    let mut out = Vec::new();
+    walk(f.root.as_ref()?, &mut map, &mut queue, &mut out);
+    if let Some(info) = &f.info {
+        walk(info, &mut map, &mut queue, &mut out);
+    }
+    let mut qi = 0;
+    while qi < queue.len() {
+        let n = queue[qi];
+        qi += 1;
+        out.extend_from_slice(format!("\nobj{} ", map[&n]).as_bytes());
+        match f.objs.get(&n) {
+            Some(o) => walk(o, &mut map, &mut queue, &mut out),
+            None => out.extend_from_slice(b"missing"),
+        }
+        if queue.len() > 200_000 {
+            return None;
+        }
+    }
+    Some((out, map))
+}
+
+enum ApPerm {
+    States,
+    SubStates,
+}
+
+/// How the references inside the widgets' /AP dictionaries differ between two files with the
+/// same object graph: permuted among the direct entries of /AP, or only inside sub-dictionaries.
+fn ap_permutation(fa: &Loose, fb: &Loose, moved: &[u32]) -> Option<ApPerm> {
+    // per widget (in object-number order, which is the same in both files): (direct refs, nested refs)
+    fn ap_refs(f: &Loose) -> Vec<(Vec<u32>, Vec<u32>)> {
+        fn nested(o: &Obj, out: &mut Vec<u32>, depth: usize) {
+            match o {
+                Obj::Ref(n, _) => out.push(*n),
+                Obj::Dict(d) if depth < 3 => {
+                    let mut ks: Vec<&(Vec<u8>, Obj)> = d.iter().collect();
+                    ks.sort_by(|x, y| x.0.cmp(&y.0));
+                    for (_, v) in ks {
+                        nested(v, out, depth + 1);
+                    }
+                }
+                _ => {}
+            }
+        }
+        let mut v = Vec::new();
+        for o in f.objs.values() {
+            if o.dict_get("Subtype").and_then(|s| s.as_name()) == Some(b"Widget") {
+                let mut direct = Vec::new();
+                let mut deep = Vec::new();
+                if let Some(Obj::Dict(ap)) = o.dict_get("AP") {
+                    let mut ks: Vec<&(Vec<u8>, Obj)> = ap.iter().collect();
+                    ks.sort_by(|x, y| x.0.cmp(&y.0));
+                    for (_, val) in ks {
+                        match val {
+                            Obj::Ref(n, _) => direct.push(*n),
+                            other => nested(other, &mut deep, 0),
+                        }
+                    }
+                }
+                v.push((direct, deep));
+            }
+        }
+        v
+    }
+    let (ra, rb) = (ap_refs(fa), ap_refs(fb));
+    if ra.len() != rb.len() || ra == rb {
+        return None;
+    }
+    // nothing but appearance streams may have changed its number
+    let ap_objs: std::collections::BTreeSet<u32> = ra.iter().flat_map(|(d, n)| d.iter().chain(n.iter()).copied()).collect();
+    if !moved.iter().all(|n| ap_objs.contains(n)) {
+        return None;
+    }
+    let same_set = |x: &Vec<u32>, y: &Vec<u32>| {
+        let (mut xs, mut ys) = (x.clone(), y.clone());
+        xs.sort();
+        ys.sort();
+        xs == ys
+    };
+    // every widget refers to the same set of objects in both files, only the assignment differs
+    if !ra.iter().zip(rb.iter()).all(|(x, y)| {
+        let mut ax = x.0.clone();
+        ax.extend(&x.1);
+        let mut by = y.0.clone();
+        by.extend(&y.1);
+        same_set(&ax, &by)
+    }) {
+        return None;
+    }
+    if ra.iter().zip(rb.iter()).any(|(x, y)| x.0 != y.0) {
+        Some(ApPerm::States)
+    } else {
+        Some(ApPerm::SubStates)
+    }
+}
+
+fn describe(a: &[u8], b: &[u8], l: &Locus) -> String {
+    let lo = l.offset.saturating_sub(24);
+    format!(
+        "first difference at byte {} (lengths {} / {}) in {} [{}]; A: {:?}  B: {:?}",
+        l.offset,
+        l.len_a,
+        l.len_b,
+        l.region,
+        l.class,
+        vx::show_bytes(&a[lo.min(a.len())..(l.offset + 40).min(a.len())], 64),
+        vx::show_bytes(&b[lo.min(b.len())..(l.offset + 40).min(b.len())], 64)
+    )
+}
+
+// ------------------------------------------------------------------ worker
+
+/// `vcheck --worker C20 <quick|thorough> <program index> <config index> <len> <hash>`: build,
+/// serialize once; when the result has the given length and hash write `same` to stdout,
+/// otherwise the bytes themselves (so that the parent can localise the difference; a 20 MB
+/// file does not go through the pipe unless it differs). Exit 0 same, 1 different,
+/// 3 build/serialize error (message on stdout).
+pub fn worker_main(args: &[String]) -> i32 {
+    use std::io::Write;
+    let thorough = args.first().map(|s| s == "thorough").unwrap_or(false);
+    let (Some(pi), Some(ci)) = (args.get(1).and_then(|s| s.parse::<usize>().ok()), args.get(2).and_then(|s| s.parse::<usize>().ok())) else {
+        eprintln!("usage: --worker C20 <quick|thorough> <program> <config>");
+        return 2;
+    };
+    vx::install_panic_hook();
+    let lv = levels(thorough);
+    let p = prog_from_index(pi, &lv);
+    let r = guarded(|| {
+        let mut d = build(&p)?;
+        serialize(&mut d, ci)
+    });
+    let want_len = args.get(3).and_then(|s| s.parse::<usize>().ok());
+    let want_hash = args.get(4).and_then(|s| s.parse::<u64>().ok());
+    let mut out = std::io::stdout().lock();
+    match r {
+        Ok(b) => {
+            if Some(b.len()) == want_len && Some(vx::hbytes(&b)) == want_hash {
+                let _ = out.write_all(b"same");
+                return 0;
+            }
+            let _ = out.write_all(&b);
+            let _ = out.flush();
+            1
+        }
+        Err(e) => {
+            let _ = out.write_all(e.as_bytes());
+            3
+        }
+    }
+}
+
+// ------------------------------------------------------------------ the check
+
+/// Differences found, aggregated over all cells. They are NOT reported through `Ctx::fail`:
+/// whether a hash-order-dependent emission shows up in one particular cell is a matter of
+/// chance (that is the stated limit of this check), and the explorer rightly treats a body
+/// whose violations change between two runs of the same path as broken machinery. The body
+/// therefore stays deterministic (same choices, same input, constant outcome) and the verdict
+/// per finding key is the OR over all cells, which is stable. In replay mode the body reports
+/// through `Ctx::fail` and repeats the serialization often enough to reproduce.
+#[derive(Default)]
+struct Agg {
+    by_key: std::collections::BTreeMap<String, AggEntry>,
+}
+struct AggEntry {
+    count: u64,
+    cells: u64,
+    detail: String,
+    choices: Vec<u32>,
+    case: serde_json::Value,
+}
+
+struct Diffs {
+    /// (key, detail), at most one per key per cell
+    found: Vec<(String, String)>,
+}
+impl Diffs {
+    fn add(&mut self, key: String, detail: String) {
+        if !self.found.iter().any(|(k, _)| *k == key) {
+            self.found.push((key, detail));
+        }
+    }
+    fn compare(&mut self, ctx: &str, what: &str, reference: &[u8], other: &[u8]) {
+        let t = cost::cpu_ns();
+        if let Some(l) = locate(reference, other) {
+            let key = classify(reference, other, &l);
+            self.add(key, format!("{ctx}: {what}: {}", describe(reference, other, &l)));
+        }
+        cost::add(&cost::CMP, t);
+    }
+}
+
+/// Replace the time-dependent fields by a constant: PDF dates `D:YYYYMMDDHHMMSS` and XMP
+/// dates `YYYY-MM-DDTHH:MM:SS`. Fixed-width, so offsets are preserved.
+fn mask_dates(b: &mut [u8]) {
+    let n = b.len();
+    let mut i = 0;
+    while i + 16 <= n {
+        if b[i] == b'D' && b[i + 1] == b':' && b[i + 2..i + 16].iter().all(|c| c.is_ascii_digit()) {
+            for x in &mut b[i + 2..i + 16] {
+                *x = b'0';
+            }
+            i += 16;
+            continue;
+        }
+        i += 1;
+    }
+    let mut i = 0;
+    while i + 19 <= n {
+        let s = &b[i..i + 19];
+        let pat = |k: usize| s[k].is_ascii_digit();
+        if (0..4).all(pat) && s[4] == b'-' && pat(5) && pat(6) && s[7] == b'-' && pat(8) && pat(9) && s[10] == b'T'
+            && pat(11) && pat(12) && s[13] == b':' && pat(14) && pat(15) && s[16] == b':' && pat(17) && pat(18)
+        {
+            for k in [0usize, 1, 2, 3, 5, 6, 8, 9, 11, 12, 14, 15, 17, 18] {
+                b[i + k] = b'0';
+            }
+            i += 19;
+            // fractional seconds (xmp:ModifyDate carries the sub-second part of the clock)
+            if i < n && b[i] == b'.' {
+                i += 1;
+                while i < n && b[i].is_ascii_digit() {
+                    b[i] = b'0';
+                    i += 1;
+                }
+            }
+            continue;
+        }
+        i += 1;
+    }
+}
+
+/// Widths of the fractional-second parts of all XMP-style dates (after masking: runs of '0' after
+/// "00:00:00.").
+fn date_widths(b: &[u8]) -> Vec<usize> {
+    let pat = b"0000-00-00T00:00:00";
+    let mut v = Vec::new();
+    let mut i = 0;
+    while let Some(p) = refpdf::file::find_first(b, pat, i) {
+        let mut j = p + pat.len();
+        let mut w = 0;
+        if j < b.len() && b[j] == b'.' {
+            j += 1;
+            while j < b.len() && b[j] == b'0' {
+                w += 1;
+                j += 1;
+            }
+        }
+        v.push(w);
+        i = j;
+    }
+    v
+}
+
+fn choose_prog(c: &mut Ctx, lv: &[usize; 6]) -> Prog {
+    let fonts = c.choose("fonts", lv[0]);
+    let images = c.choose("images", lv[1]);
+    let gfx = if lv[2] == 0 { images } else { c.choose("gfx", lv[2]) };
+    let annots = if lv[3] == 0 { images } else { c.choose("annots", lv[3]) };
+    Prog { fonts, images, gfx, annots, forms: c.choose("forms", lv[4]), nav: c.choose("nav", lv[5]) }
+}
+
+fn prog_json(p: &Prog) -> serde_json::Value {
+    json!({
+        "fonts": FONTS_LEVELS[p.fonts], "images": IMAGES_LEVELS[p.images], "gfx": GFX_LEVELS[p.gfx],
+        "annots": ANNOTS_LEVELS[p.annots], "forms": FORMS_LEVELS[p.forms], "nav": NAV_LEVELS[p.nav],
+    })
+}
+
+/// All serializations of one cell. `fresh_builds` = number of freshly built documents besides A.
+fn run_cell(p: &Prog, cfg: usize, pi: usize, tier_name: &str, fresh_builds: usize, processes: usize) -> (Diffs, usize) {
+    let mut d = Diffs { found: Vec::new() };
+    let ctx = format!("program {:?} [{}]", p, config_name(cfg));
+    let a = guarded(|| {
+        let mut doc = timed_build(p)?;
+        let a1 = timed_serialize(&mut doc, cfg)?;
+        let a2 = timed_serialize(&mut doc, cfg)?;
+        Ok((a1, a2))
+    });
+    let (a1, a2) = match a {
+        Ok(x) => x,
+        Err(e) => {
+            let key = if e.starts_with("panic") { format!("C20/write-panics@{}", vx::panic_site(&e)) } else { "C20/program-cannot-be-built-or-written".to_string() };
+            d.add(key, format!("{ctx}: {e}"));
+            return (d, 0);
+        }
+    };
+    d.compare(&ctx, "second write_document on the same Document", &a1, &a2);
+    drop(a2);
+    for i in 0..fresh_builds {
+        match guarded(|| {
+            let mut doc = timed_build(p)?;
+            timed_serialize(&mut doc, cfg)
+        }) {
+            Ok(b) => d.compare(&ctx, &format!("fresh build #{}", i + 2), &a1, &b),
+            Err(e) => d.add("C20/program-not-reproducible-error".into(), format!("{ctx}: fresh build #{}: {e}", i + 2)),
+        }
+    }
+    let pis = pi.to_string();
+    let cis = cfg.to_string();
+    let lens = a1.len().to_string();
+    let hs = vx::hbytes(&a1).to_string();
+    for i in 0..processes {
+        let t0 = std::time::Instant::now();
+        let r = vx::proc::run_self_collect(&["--worker", "C20", tier_name, &pis, &cis, &lens, &hs], &[]);
+        cost::WORKER_WALL[cfg].fetch_add(t0.elapsed().as_nanos() as u64, std::sync::atomic::Ordering::Relaxed);
+        match r {
+            Ok((0, b)) if b == b"same" => {}
+            Ok((1, b)) => d.compare(&ctx, &format!("fresh process {}", i + 1), &a1, &b),
+            Ok((code, b)) => d.add("C20/worker-process-failed".into(), format!("{ctx}: fresh process {}: exit {code}: {}", i + 1, vx::show_bytes(&b, 200))),
+            Err(e) => d.add("C20/MACHINERY-worker-spawn-failed".into(), format!("{ctx}: fresh process {}: {e}", i + 1)),
+        }
+    }
+    (d, a1.len())
+}
+
+fn record(agg: &std::sync::Mutex<Agg>, d: Diffs, choices: Vec<u32>, case: serde_json::Value) {
+    if d.found.is_empty() {
+        return;
+    }
+    let mut g = agg.lock().unwrap();
+    for (key, detail) in d.found {
+        let cost = |c: &Vec<u32>| (c.iter().filter(|&&x| x != 0).count(), c.clone());
+        match g.by_key.get_mut(&key) {
+            Some(en) => {
+                en.count += 1;
+                en.cells += 1;
+                if cost(&choices) < cost(&en.choices) {
+                    en.choices = choices.clone();
+                    en.detail = detail;
+                    en.case = case.clone();
+                }
+            }
+            None => {
+                g.by_key.insert(key, AggEntry { count: 1, cells: 1, detail, choices: choices.clone(), case: case.clone() });
+            }
+        }
+    }
+}
+
+fn publish(rep: &mut Report, section: &str, labels: &[&str], agg: std::sync::Mutex<Agg>) {
+    let agg = agg.into_inner().unwrap();
+    let mut counts = serde_json::Map::new();
+    for (key, en) in agg.by_key {
+        counts.insert(key.clone(), json!({"cells_with_this_difference": en.cells}));
+        rep.violations.push(vx::FoundViolation {
+            key,
+            detail: en.detail,
+            section: section.to_string(),
+            choices: en.choices,
+            labels: labels.iter().map(|s| s.to_string()).collect(),
+            count: en.count,
+            rendered: Some(en.case),
+        });
+    }
+    rep.note(&format!("differences_{}", section.replace('-', "_")), serde_json::Value::Object(counts));
+}
+
+pub fn run(rep: &mut Report) {
+    let thorough = rep.tier.is_thorough();
+    let lv = levels(thorough);
+    let tier_name = if thorough { "thorough" } else { "quick" };
+    let replay = rep.is_replay();
+    rep.rule("cell = (program, writer configuration); program = one level per feature (fonts, images, graphics resources, \
+              annotations, form fields, navigation), all combinations; configuration = all 8 combinations of xref \
+              table|stream, object streams off|on, stream compression on|off without encryption (quick tier: images, \
+              graphics resources and annotations are one feature, 1 embedded font, 4 form levels = 32 programs; thorough: all \
+              levels independent = 240 programs); every cell is \
+              serialized 4x in-process (same Document twice, two freshly built Documents) and once in each of 2 fresh \
+              processes (thorough: 6x in-process with four fresh builds, 3 fresh processes); non-trivial = at least one feature above its base level; distinct = distinct (program, configuration)");
+    rep.assume("the clock is held fixed by set_creation_date + set_modification_date and by serializing through \
+                PdfWriter::write_document; Document::to_bytes*/save*/write overwrite the modification date with the wall clock \
+                (cannot be pinned) and are compared with PDF and XMP date fields masked in section unpinned-clock");
+    rep.assume("programs x configurations are enumerated exhaustively; HashMap iteration order is NOT enumerated: it is covered by \
+                repetition over fresh maps (3 builds per cell, in whatever explorer thread runs the cell) and 2 fresh processes \
+                (4 hash seeds independent of the first per cell); an order-dependent emission over k>=2 entries escapes one cell with \
+                probability <= (1/k!)^4, and the verdict per finding key is the OR over all cells containing the feature");
+    rep.assume("because a difference caused by hash order shows up by chance, differences are aggregated over the section and reported \
+                once per key after it (not through Ctx::fail, whose re-run determinism check would misread them as broken machinery); \
+                --replay repeats the cell with 24 fresh builds so that it reproduces");
+    rep.assume("HeaderFooter date/time placeholders (Local::now, no setter) are not used by the programs");
+    rep.assume("the build recipe itself is deterministic (same API calls in the same order); /Info build signature and producer are compile-time constants");
+    let _ = font_bytes();
+
+    let agg = std::sync::Mutex::new(Agg::default());
+    rep.explore("cells", Explore::full(), |c: &mut Ctx| {
+        let p = choose_prog(c, &lv);
+        let cfg = c.choose("config", 8);
+        c.input(vx::h64(&(p, cfg)));
+        if p != (Prog { fonts: 0, images: 0, gfx: 0, annots: 0, forms: 0, nav: 0 }) {
+            c.nontrivial();
+        }
+        let (fresh, procs) = if replay { (24, 2) } else if thorough { (4, 3) } else { (2, 2) };
+        let (d, len) = run_cell(&p, cfg, prog_index(&p, &lv), tier_name, fresh, procs);
+        c.outcome(vx::h64(&"serializations compared"));
+        let case = json!({"program": prog_json(&p), "config": config_name(cfg), "bytes": len, "serializations": 2 + fresh + procs});
+        if replay {
+            for (k, det) in d.found {
+                c.fail(k, det);
+            }
+        } else {
+            record(&agg, d, c.choices(), case.clone());
+        }
+        c.sample(case);
+    });
+    if !replay {
+        let mut labels = vec!["fonts", "images"];
+        if lv[2] != 0 {
+            labels.push("gfx");
+        }
+        if lv[3] != 0 {
+            labels.push("annots");
+        }
+        labels.extend(["forms", "nav", "config"]);
+        publish(rep, "cells", &labels, agg);
+        rep.note("cost_ms", json!({
+            "build_cpu": cost::ms(&cost::BUILD),
+            "serialize_cpu_by_config": (0..8).map(|i| json!({"config": config_name(i), "ms": cost::ms(&cost::SER[i])})).collect::<Vec<_>>(),
+            "compare_and_classify_cpu": cost::ms(&cost::CMP),
+            "worker_process_wall_by_config": (0..8).map(|i| json!({"config": config_name(i), "ms": cost::ms(&cost::WORKER_WALL[i])})).collect::<Vec<_>>(),
+        }));
+    }
+
+    // second clause of the property: with the clock not fixed only the time fields may differ
+    let agg2 = std::sync::Mutex::new(Agg::default());
+    rep.explore("unpinned-clock", Explore::full(), |c: &mut Ctx| {
+        let p = choose_prog(c, &[1, 2, 1, 2, 2, 2]);
+        // configurations in which the dates are stored in clear (no object streams)
+        let cfg = *c.pick_from("config", &[0usize, 1, 4, 5]);
+        c.input(vx::h64(&(p, cfg)));
+        c.nontrivial();
+        let ctx = format!("program {:?} [{}] through Document::to_bytes_with_config", p, config_name(cfg));
+        let mut d = Diffs { found: Vec::new() };
+        let mut outs = Vec::new();
+        for _ in 0..if replay { 8 } else { 3 } {
+            match guarded(|| {
+                let mut doc = build(&p)?;
+                e(doc.to_bytes_with_config(config_of(cfg)), "to_bytes_with_config")
+            }) {
+                Ok(mut b) => {
+                    mask_dates(&mut b);
+                    outs.push(b);
+                }
+                Err(e) => {
+                    d.add("C20/program-cannot-be-built-or-written".into(), format!("{ctx}: {e}"));
+                    break;
+                }
+            }
+        }
+        // chrono prints 0, 3, 6 or 9 fractional digits depending on the clock value; an output whose
+        // date fields have another width than the first one's cannot be compared byte by byte
+        let sig0 = outs.first().map(|o| date_widths(o));
+        for b in outs.iter().skip(1) {
+            if Some(date_widths(b)) == sig0 {
+                d.compare(&ctx, "another build, dates masked", &outs[0], b);
+            }
+        }
+        c.outcome(vx::h64(&"3 serializations compared"));
+        let case = json!({"program": prog_json(&p), "config": config_name(cfg), "masked": "D:YYYYMMDDHHMMSS and YYYY-MM-DDTHH:MM:SS"});
+        if replay {
+            for (k, det) in d.found {
+                c.fail(k, det);
+            }
+        } else {
+            record(&agg2, d, c.choices(), case.clone());
+        }
+        c.sample(case);
+    });
+    if !replay {
+        publish(rep, "unpinned-clock", &["fonts", "images", "gfx", "annots", "forms", "nav", "config"], agg2);
+    }
 }
